@@ -198,6 +198,30 @@ func genC04Full(t *rapid.T) kit.History {
 		h.Txs = append(h.Txs, kit.TxSpec{Ops: []kit.Op{{Kind: "delete", Store: "tree", ID: []string{"c00", "c01", "c02"}[rapid.IntRange(0, 2).Draw(t, "deepVictim")]}}})
 		return h
 	}
+	if rapid.IntRange(0, 5).Draw(t, "missingTargetThroughParent") == 0 {
+		// an entity with child data (created through the child store bk) is updated through the parent store bn to
+		// reference a target that does not exist: refused, whichever store the update is routed to
+		m := replayModel(h)
+		if _, exists := m.Ents["bn"]["via-parent"]; !exists {
+			tx := kit.TxSpec{}
+			target := ""
+			for _, id := range c04IDs {
+				if _, ok := m.Ents["targets"][id]; ok {
+					target = id
+					break
+				}
+			}
+			if target == "" {
+				target = "vp-target"
+				tx.Ops = append(tx.Ops, kit.Op{Kind: "create", Store: "targets", ID: target, Spec: &kit.EntSpec{Name: "n"}})
+			}
+			tx.Ops = append(tx.Ops, kit.Op{Kind: "create", Store: "bk", ID: "via-parent", Spec: &kit.EntSpec{Name: "n", Ref: kit.Sp(target), Extra: "x"}})
+			h.Txs = append(h.Txs, tx)
+			kind := []string{"update", "patch"}[rapid.IntRange(0, 1).Draw(t, "vpKind")]
+			h.Txs = append(h.Txs, kit.TxSpec{Ops: []kit.Op{{Kind: kind, Store: "bn", ID: "via-parent", Fields: []string{kit.FRef}, Spec: &kit.EntSpec{Name: "n", Ref: kit.Sp("no-such-target")}}}})
+			return h
+		}
+	}
 	if rapid.IntRange(0, 5).Draw(t, "staleTarget") == 0 {
 		// one transaction: reference a target, drop the reference, delete the target, reference it again.
 		// The last step must be refused (the target no longer exists) and with it the whole transaction.
@@ -382,6 +406,9 @@ func runC04(c c04Case) kit.Result {
 			owners = []string{"o1", "o2"}
 		}
 		res.Err = c04Siblings(owners, c.SiblingsCascade)
+		if res.Err == nil {
+			res.Err = c04PrefixedReference(owners)
+		}
 	}
 	res.NonTrivial = deleteReferenced || reparent || hostileDelete
 	for name, on := range map[string]bool{"delete-of-referenced-target": deleteReferenced, "re-parenting-update": reparent, "delete-with-hostile-id": hostileDelete,
